@@ -99,10 +99,15 @@ type cqp struct {
 	faults   bool   // OpenFile / Read / iterator may fail (at most Fault bound)
 	engine   string // fresh | started | stopped
 	prop     string
+	ctxReads bool // the DataStore's handles abort reads once the context OpenFile got has ended
 }
 
 func (p cqp) name() string {
-	return fmt.Sprintf("%s-c%d-take%d-close%d-cancel_%v-faults_%v-%s", p.fixture, p.conc, p.takes, p.closer, p.cancel, p.faults, p.engine)
+	n := fmt.Sprintf("%s-c%d-take%d-close%d-cancel_%v-faults_%v-%s", p.fixture, p.conc, p.takes, p.closer, p.cancel, p.faults, p.engine)
+	if p.ctxReads {
+		n += "-ctxreads"
+	}
+	return n
 }
 
 var (
@@ -114,6 +119,7 @@ var (
 func cqRoot(p cqp) func() {
 	return func() {
 		data, meta := loadFixture(p.fixture)
+		data.CtxAwareReads = p.ctxReads
 		var fired []error
 		inRead := 0
 		maxInRead := 0
@@ -231,6 +237,9 @@ func cqRoot(p cqp) func() {
 			wg.Add(1)
 			go func() {
 				defer wg.Done()
+				if p.fixture == "manyfiles" {
+					vapi.Quiesce() // terminate a query whose pipeline is saturated behind the stalled consumer
+				}
 				for i := 0; i < p.closer; i++ {
 					vapi.Log("call Close")
 					if err := res.Close(); err != nil {
@@ -245,6 +254,9 @@ func cqRoot(p cqp) func() {
 			wg.Add(1)
 			go func() {
 				defer wg.Done()
+				if p.fixture == "manyfiles" {
+					vapi.Quiesce()
+				}
 				vapi.Log("cancel begin")
 				cancel()
 				vapi.Log("cancel done")
@@ -391,8 +403,14 @@ func init() {
 		append(hitRows("a", "x", 66), hitRows("b", "y", 2)...),
 		hitRows("c", "x", 2),
 	}
-	setups := map[string]func(){"small": buildFixture("small", small), "big": buildFixture("big", big)}
-	for name, bs := range map[string][][]map[string]any{"small": small, "big": big} {
+	// 30 one-block files with one matching row each: more surviving files than the query
+	// pipeline can absorb (4 row batches + 16 block jobs + 4 file jobs + 2 x concurrency)
+	var manyfiles [][]map[string]any
+	for i := 0; i < 30; i++ {
+		manyfiles = append(manyfiles, hitRows(fmt.Sprintf("f%d_", i), "x", 1))
+	}
+	setups := map[string]func(){"small": buildFixture("small", small), "big": buildFixture("big", big), "manyfiles": buildFixture("manyfiles", manyfiles)}
+	for name, bs := range map[string][][]map[string]any{"small": small, "big": big, "manyfiles": manyfiles} {
 		for _, b := range bs {
 			for _, r := range b {
 				if r["k"] == "hit" {
@@ -406,14 +424,23 @@ func init() {
 			var ps []cqp
 			if tier == "quick" {
 				ps = []cqp{
-					{"small", 2, -1, 0, false, false, "fresh", prop},
-					{"small", 2, 1, 1, false, false, "fresh", prop},
-					{"small", 1, 0, 0, true, false, "stopped", prop},
-					{"small", 2, -1, 1, true, false, "fresh", prop},
-					{"small", 2, -1, 0, false, true, "started", prop},
-					{"big", 2, 65, 2, false, false, "fresh", prop},
+					{"small", 2, -1, 0, false, false, "fresh", prop, false},
+					{"small", 2, 1, 1, false, false, "fresh", prop, false},
+					{"small", 1, 0, 0, true, false, "stopped", prop, false},
+					{"small", 2, -1, 1, true, false, "fresh", prop, false},
+					{"small", 2, -1, 0, false, true, "started", prop, false},
+					{"small", 1, -1, 0, false, true, "fresh", prop, false},
+					{"big", 2, 65, 2, false, false, "fresh", prop, false},
+					// reads that fail because the query was terminated (context-aware store)
+					{"small", 2, 1, 1, false, false, "fresh", prop, true},
+					{"small", 1, 0, 0, true, false, "started", prop, true},
+					// a stalled consumer behind a saturated pipeline, ended by Close / by cancellation
+					{"manyfiles", 1, 0, 1, false, false, "fresh", prop, false},
+					{"manyfiles", 1, 0, 0, true, false, "fresh", prop, false},
 				}
 			} else {
+				ps = append(ps, cqp{"manyfiles", 1, 0, 1, false, false, "fresh", prop, false}, cqp{"manyfiles", 1, 0, 0, true, false, "fresh", prop, false},
+					cqp{"manyfiles", 2, 1, 2, false, false, "started", prop, false}, cqp{"manyfiles", 1, 0, 1, true, false, "fresh", prop, true})
 				for _, fx := range []string{"small", "big"} {
 					for _, conc := range []int{1, 2} {
 						for _, takes := range []int{-1, 0, 1, 65} {
@@ -429,7 +456,10 @@ func init() {
 										if fx == "big" && (faults || (closer > 0 && cancel)) {
 											continue
 										}
-										ps = append(ps, cqp{fx, conc, takes, closer, cancel, faults, []string{"fresh", "started", "stopped"}[(conc+closer+takes+3)%3], prop})
+										ps = append(ps, cqp{fx, conc, takes, closer, cancel, faults, []string{"fresh", "started", "stopped"}[(conc+closer+takes+3)%3], prop, false})
+										if !faults && (closer > 0 || cancel) {
+											ps = append(ps, cqp{fx, conc, takes, closer, cancel, false, "fresh", prop, true})
+										}
 									}
 								}
 							}
@@ -445,11 +475,22 @@ func init() {
 				if p.faults {
 					s.Fault = 1
 				}
+				if p.fixture == "manyfiles" {
+					s.Sched = 1
+				}
+				if tier == "quick" && prop == "C21" && p.faults && p.conc > 1 {
+					// the follow-up query makes C21 executions twice as long: one delay with two
+					// workers, two delays with one worker (next scenario)
+					s.Sched = 1
+				}
 				if tier == "thorough" {
 					s.DelayBound = false
 					s.Sched = 1
 					if p.fixture == "big" {
 						s.DelayBound, s.Sched = true, 3
+					}
+					if p.fixture == "manyfiles" {
+						s.DelayBound, s.Sched = true, 2
 					}
 				}
 				out = append(out, s)
